@@ -50,7 +50,7 @@ PANIC_TABLE = {
     (G + "simple_term_infallible::{closure#0}::{closure#0}::{closure#1}", "P2", "Option::unwrap"): (1, "opt_i(many0(..)): many0 cannot fail, so the option is Some"),
     (G + "word_infallible::{closure#0}::{closure#1}", "P3", "windows"): (1, "windows(2): size is the non-zero constant 2"),
     (G + "word_infallible::{closure#0}::{closure#1}::{closure#0}", "P3", "BoundsCheck"): (2, "window[0], window[1] on a windows(2) element"),
-    (QG + "user_input_ast::UserInputLeaf::set_field", "P2", "Option::expect"): (1, "an Exists leaf is only produced after a field name was parsed: bare `*` followed by white space / `)` / an escape character / eof is consumed earlier as All, and `exists` accepts `*` only before the same terminators. CORRECTED: the first triage (28 ASCII inputs, triage/src/bin/f8.rs) called the site unreachable although `*` followed by a non-ASCII white space reached it (All used nom's ASCII multispace1, exists used char::is_whitespace). That was defect F17, fixed in fbe0bf77e; the reason now rests on C16-R3 (one notion of white space), which keeps the two terminator sets equal"),
+    (QG + "user_input_ast::UserInputLeaf::set_field", "P2", "Option::expect"): (1, "an Exists leaf only reaches set_field(None -> Some) with a field: rests on C16-R5 (`exists` is only composed as tuple((field_name, exists))) and C16-R3 (one notion of white space). This entry was triaged WRONG twice: first as unreachable from 28 ASCII inputs (non-ASCII white space reached it: F17), then as resting on C16-R3 alone (`+ *` reached it through the occur marker: F43). A triaged reason is a claim; both times it took an input nobody had tried"),
 }
 
 # recursion anchors: SCCs of the parser's call graph, all structural recursion over the nesting depth of the input
@@ -128,8 +128,37 @@ def r4(rep, prog):
     rep.floor(R, "RFC 3339 text to DateTime conversion sites", n, 6)
 
 
+def r5(rep, prog):
+    """the strict grammar composes `exists` only behind a mandatory field name"""
+    R = "C16-R5"
+    rep.rule(R, "an exists leaf always has a field: the strict parser's `exists` (white space, `*`, a terminator) yields UserInputLeaf::Exists with an empty field, and UserInputLeaf::set_field(None) on it panics (`expect(\"Exist query without a field isn't allowed\")`). `exists` skips leading white space itself, so wherever it can run without a field name in front of it, ` *` is accepted — `+ *`, `a - *`. Rule: in query-grammar every use of the fn item `exists` is as the second element of the pair (field_name, exists) handed to nom's tuple(): never as an alternative next to an optional field name, never alone")
+    EX = QG + "query_grammar::exists"
+    FN = QG + "query_grammar::field_name"
+    uses = []
+    for fid, b in sorted(prog.bodies.items()):
+        if not fid.startswith(QG) or "::tests::" in fid or b.kind in ("const", "static", "promoted"):
+            continue
+        for bi in b.normal_blocks():
+            for st in b.stmts(bi):
+                ops = [o.get("fn") for o in st.get("o", []) if isinstance(o, dict)]
+                if EX in ops:
+                    uses.append((b, bi, "agg" if st.get("r") == "agg" else st.get("r"), ops))
+            t = b.term(bi)
+            if t["k"] in ("call", "tailcall"):
+                ops = [o.get("fn") for o in t.get("args", []) if isinstance(o, dict)]
+                if EX in ops:
+                    uses.append((b, bi, "call " + short(t.get("f") or ""), ops))
+    rep.floor(R, "uses of the fn item query_grammar::exists", len(uses), 1)
+    for b, bi, how, ops in uses:
+        ok = how == "agg" and ops == [FN, EX]
+        rep.check(ok, R, "`exists` in %s is paired with a mandatory field_name" % short(b.id), "tuple((field_name, exists))",
+                  "%s uses the parser `exists` as %s with %s: it is not the pair (field_name, exists). `exists` skips white space and accepts `*` on its own, so the strict parser builds an Exists leaf without a field "
+                  "and UserInputLeaf::set_field(None) panics — parse_query(\"+ *\"), (\"a - *\"), (\"title:a +\\t*\")" % (b.id, how, [short(o or "?") for o in ops]), site=site(b, bi))
+
+
 def run(rep, prog, tier):
     r4(rep, prog)
+    r5(rep, prog)
     rep.rule("C16-R1", "panic inventory: every panicking construct (explicit panic/assert/unreachable, unwrap/expect, indexing/slicing and panicking std APIs, arithmetic overflow/division asserts) in bodies of the parser's source files reachable from parse_query / parse_query_lenient / QueryParser entry points equals the frozen, individually reasoned table (keyed by function + kind + count, no line numbers)")
     rep.rule("C16-R2", "recursion: every cycle (SCC) of the parser scope's call graph needs a recorded depth bound; cycles driven by input nesting without a bound are findings")
     rep.not_decided += ["that the parsed query means what the grammar says", "strict / lenient agreement (semantic)", "panics inside tokenizers, Term builders, date/ip parsing called from the parser (outside the scope, trusted)"]
